@@ -1,11 +1,54 @@
 """C12 - the storage scheme is stable."""
-from ..core import Prop
+import hashlib
+
+from ..core import Prop, Suite
+from ..coqlit import cstr
 from ..suites_l0 import Registry
+from ..suites_chain import ChainBuild
+
+
+class Sha(Suite):
+    """the Gallina SHA-256 that instantiates the hash in the goldens, against hashlib"""
+    name = 'sha256'
+    imports = 'Sha256'
+    shard = 8
+    in_type = 'str'
+    out_type = 'str'
+    eq_dec = 'str_eq_dec'
+    model = 'sha256_hex'
+
+    def corpus(self):
+        return [dict(hex=b''.hex()), dict(hex=b'None$$$'.hex()), dict(hex=(b'a' * 55).hex()), dict(hex=(b'a' * 56).hex()),
+                dict(hex=(b'a' * 64).hex()), dict(hex='lr=0.001###x=\'é\'$$$a::b=0123'.encode().hex())]
+
+    def gen(self, rng, tier):
+        out = []
+        for _ in range(40 if tier == 'quick' else 400):
+            n = rng.choice([0, 1, 31, 32, 54, 55, 56, 57, 63, 64, 65, 119, 120, rng.randrange(0, 400)])
+            out.append(dict(hex=bytes(rng.randrange(256) for _ in range(n)).hex()))
+        return out
+
+    def run_impl(self, case):
+        return dict(digest=hashlib.sha256(bytes.fromhex(case['hex'])).hexdigest())
+
+    def encode(self, case, obs):
+        return cstr(bytes.fromhex(case['hex'])), cstr(obs['digest'])
+
+    def nontrivial(self, case, obs):
+        return len(case['hex']) > 2 * 55
+
+
+class Keys(ChainBuild):
+    """keys and locations of whole chains against the frozen re-implementation of the 1.4.0 scheme"""
+    aspects = ('keys',)
 
 
 class C12(Prop):
     pid = 'C12'
-    suites = [Registry()]
+    suites = [Registry(), Keys(), Sha()]
+    trusted_base = ['SHA-256: the Gallina implementation is checked against FIPS vectors (kernel) and hashlib (correspondence)',
+                    'the frozen re-implementation harness/tcv/oracle_frozen.py and the golden literals were produced at the pinned commit']
+    assumptions = ['parameter mode; name mode (key = config name) is exercised by the C20 harness']
 
 
 PROP = C12()
